@@ -51,3 +51,60 @@ Print Assumptions C20_src_hex_add_is_model.
 Theorem C20_src_hex_ring_is_model : forall radius : Z, src_hex_ring radius = Ok (hex_ring radius).
 Proof. exact src_hex_ring_ok. Qed.
 Print Assumptions C20_src_hex_ring_is_model.
+
+(* ---- lentil/util.py: window(img, shape, slice) ---- *)
+(* with shape and slice: None when the image has one element (returned as is), the size-consistency asserts, else the
+   slices of the returned view *)
+Theorem C20_src_window_slice_is_model : forall (n m : Z) (shape : Z * Z) (sl : Z * Z * Z * Z),
+  src_window_slice (n, m) shape sl =
+  let '(s0, s1, s2, s3) := sl in
+  if n * m =? 1 then Ok None
+  else if negb (s1 - s0 =? fst shape) then Err AssertionErr
+  else if negb (s3 - s2 =? snd shape) then Err AssertionErr
+  else Ok (Some ((s0, s1), (s2, s3))).
+Proof. exact src_window_slice_stmt. Qed.
+Print Assumptions C20_src_window_slice_is_model.
+
+Theorem C20_src_window_slice_noshape_is_model : forall (n m : Z) (sl : Z * Z * Z * Z),
+  src_window_slice_noshape (n, m) sl =
+  let '(s0, s1, s2, s3) := sl in if n * m =? 1 then None else Some ((s0, s1), (s2, s3)).
+Proof. exact src_window_slice_noshape_stmt. Qed.
+Print Assumptions C20_src_window_slice_noshape_is_model.
+
+(* a cube: the test is on the total size, the slices are those of the last two axes *)
+Theorem C20_src_window_slice_cube_is_model : forall (d n m : Z) (shape : Z * Z) (sl : Z * Z * Z * Z),
+  src_window_slice_cube (d, n, m) shape sl =
+  let '(s0, s1, s2, s3) := sl in
+  if d * n * m =? 1 then Ok None
+  else if negb (s1 - s0 =? fst shape) then Err AssertionErr
+  else if negb (s3 - s2 =? snd shape) then Err AssertionErr
+  else Ok (Some ((s0, s1), (s2, s3))).
+Proof. exact src_window_slice_cube_stmt. Qed.
+Print Assumptions C20_src_window_slice_cube_is_model.
+
+(* and the model's window is that decision followed by numpy slicing *)
+Theorem C20_src_window_is_window : forall (S : Scalar) (a : arr S) (shape : Z * Z) (sl : Z * Z * Z * Z),
+  window a (Some shape) (Some sl) =
+  match src_window_slice (nr a, nc a) shape sl with
+  | Ok None => Ok a
+  | Ok (Some ((r0, r1), (c0, c1))) => Ok (np_slice a r0 r1 c0 c1)
+  | Err e => Err e
+  end.
+Proof. exact src_window_is_window. Qed.
+Print Assumptions C20_src_window_is_window.
+
+Theorem C20_src_window_cube_is_window3 : forall (S : Scalar) (c : cube S) (shape : Z * Z) (sl : Z * Z * Z * Z),
+  window3 c (Some shape) (Some sl) =
+  match src_window_slice_cube (cd c, cr c, cc c) shape sl with
+  | Ok None => Ok c
+  | Ok (Some ((r0, r1), (c0, c1))) => Ok (np_slice3 c r0 r1 c0 c1)
+  | Err e => Err e
+  end.
+Proof. exact src_window_cube_is_window3. Qed.
+Print Assumptions C20_src_window_cube_is_window3.
+
+(* ---- lentil/helper.py: mesh - THE origin convention: sample floor(n/2) is coordinate 0 (before shift/rotation) ---- *)
+Theorem C20_src_mesh_origin_is_model : forall (n m s0 s1 i j : Z),
+  src_mesh_origin (n, m) (s0, s1) i j = (i - ctr n - s0, j - ctr m - s1).
+Proof. exact src_mesh_origin_ok. Qed.
+Print Assumptions C20_src_mesh_origin_is_model.
